@@ -6,7 +6,10 @@ EXTENDS Deb822, Json
 CONSTANT N,   \* all class strings up to this length
          M    \* ... and all strings over the line-structure classes {K, C, R, N} (name, colon, CR, LF) up to this length
 LineClasses == {"K", "C", "R", "N"}
+\* ... and over {K, C, blank, LF} (indentation, blank-only lines)
+IndentClasses == {"K", "C", "S", "N"}
 AllStrings == UNION {[1..n -> Class] : n \in 0..N} \cup UNION {[1..n -> LineClasses] : n \in (N + 1)..M}
+              \cup UNION {[1..n -> IndentClasses] : n \in (N + 1)..M}
 MCCases == {[text |-> s] : s \in AllStrings}
 
 Emit == Done => PrintT(<<"REPLAY", ToJson([
